@@ -2908,3 +2908,291 @@ func ruleSingletonMissReportsDisposed(w *World, r *Report, rule string) {
 		r.OK(rule, "resolve#Singleton:miss-reports-disposed/none", ro.resolve.Decl.Pos(), false, "resolution never reports ErrSingletonNotInitialized")
 	}
 }
+
+// ruleTypeNameKeys (round 11, R04.20): a table that outlives the call - a struct field or a
+// package variable of map or sync.Map type - is never keyed by the printed name of a
+// reflect.Type. Type.String(), Name() and PkgPath() are descriptions: two function-local
+// types of one package, or two packages of one base name, print alike, so a cache keyed by
+// the text hands the record of the first type to the second (the wrong tags, fields or
+// constructor analysis - wrong wiring without an error). Every call of one of the three
+// methods is an obligation; it is discharged when neither the call nor a local defined from
+// an expression that contains it occurs in the key position of such a table.
+func ruleTypeNameKeys(w *World, r *Report, rule string) {
+	for _, fi := range w.AllFuncs() {
+		if (fi.Pkg != w.Godi && fi.Pkg != w.Graph && fi.Pkg != w.Refl) || fi.Decl.Body == nil {
+			continue
+		}
+		info := fi.Pkg.TypesInfo
+		isNameCall := func(x ast.Node) bool {
+			c, ok := x.(*ast.CallExpr)
+			if !ok {
+				return false
+			}
+			cal := callee(info, c)
+			return isFunc(cal, "reflect", "Type", "String") || isFunc(cal, "reflect", "Type", "Name") || isFunc(cal, "reflect", "Type", "PkgPath")
+		}
+		var calls []*ast.CallExpr
+		ast.Inspect(fi.Decl.Body, func(x ast.Node) bool {
+			if x != nil && isNameCall(x) {
+				calls = append(calls, x.(*ast.CallExpr))
+			}
+			return true
+		})
+		if len(calls) == 0 {
+			continue
+		}
+		// locals defined from an expression that contains a name call (to a fixpoint: a key
+		// built in two steps is still the name)
+		tainted := map[types.Object]token.Pos{}
+		contains := func(e ast.Node) (token.Pos, bool) {
+			var at token.Pos
+			found := false
+			ast.Inspect(e, func(y ast.Node) bool {
+				if y == nil || found {
+					return !found
+				}
+				if isNameCall(y) {
+					at, found = y.Pos(), true
+				}
+				if id, ok := y.(*ast.Ident); ok {
+					if o := info.Uses[id]; o != nil {
+						if p, ok := tainted[o]; ok {
+							at, found = p, true
+						}
+					}
+				}
+				return !found
+			})
+			return at, found
+		}
+		for changed := true; changed; {
+			changed = false
+			ast.Inspect(fi.Decl.Body, func(x ast.Node) bool {
+				as, ok := x.(*ast.AssignStmt)
+				if !ok || len(as.Lhs) != len(as.Rhs) {
+					return true
+				}
+				for i, l := range as.Lhs {
+					o := objOf(info, l)
+					if v, isVar := o.(*types.Var); !isVar || v.IsField() || v.Parent() == fi.Pkg.Types.Scope() {
+						continue
+					}
+					if _, done := tainted[o]; done {
+						continue
+					}
+					if b, ok := info.TypeOf(as.Rhs[i]).Underlying().(*types.Basic); !ok || b.Info()&types.IsString == 0 {
+						continue
+					}
+					if p, ok := contains(as.Rhs[i]); ok {
+						tainted[o] = p
+						changed = true
+					}
+				}
+				return true
+			})
+		}
+		persistent := func(x ast.Expr) (string, bool) {
+			x = unparen(x)
+			if u, ok := x.(*ast.UnaryExpr); ok && u.Op == token.AND {
+				x = unparen(u.X)
+			}
+			if f := fieldOf(info, x); f != nil {
+				return "field " + f.Name(), true
+			}
+			if v, ok := objOf(info, x).(*types.Var); ok && v.Parent() == fi.Pkg.Types.Scope() {
+				return "package variable " + v.Name(), true
+			}
+			return "", false
+		}
+		bad := map[token.Pos]string{} // position of the name call -> where it keys a table
+		ast.Inspect(fi.Decl.Body, func(x ast.Node) bool {
+			switch e := x.(type) {
+			case *ast.IndexExpr:
+				if _, isMap := info.TypeOf(e.X).Underlying().(*types.Map); isMap {
+					if what, ok := persistent(e.X); ok {
+						if p, ok := contains(e.Index); ok {
+							bad[p] = fmt.Sprintf("%s (%s)", what, w.Pos(e.Pos()))
+						}
+					}
+				}
+			case *ast.CallExpr:
+				cal := callee(info, e)
+				if cal == nil || len(e.Args) == 0 {
+					return true
+				}
+				isTableOp := false
+				for _, m := range []string{"Load", "Store", "LoadOrStore", "LoadAndDelete", "Delete", "Swap", "CompareAndSwap", "CompareAndDelete"} {
+					if isFunc(cal, "sync", "Map", m) {
+						isTableOp = true
+					}
+				}
+				if cal.Name() == "delete" {
+					isTableOp = false
+				}
+				if sel, ok := unparen(e.Fun).(*ast.SelectorExpr); ok && isTableOp {
+					if what, ok := persistent(sel.X); ok {
+						if p, ok := contains(e.Args[0]); ok {
+							bad[p] = fmt.Sprintf("%s (%s)", what, w.Pos(e.Pos()))
+						}
+					}
+				}
+				if id, ok := unparen(e.Fun).(*ast.Ident); ok && id.Name == "delete" && len(e.Args) == 2 {
+					if _, isBuiltin := info.Uses[id].(*types.Builtin); isBuiltin {
+						if what, ok := persistent(e.Args[0]); ok {
+							if p, ok := contains(e.Args[1]); ok {
+								bad[p] = fmt.Sprintf("%s (%s)", what, w.Pos(e.Pos()))
+							}
+						}
+					}
+				}
+			}
+			return true
+		})
+		n := 0
+		for _, c := range calls {
+			n++
+			con := fmt.Sprintf("%s#type-name/%d", fi.Name(), n)
+			where, isBad := bad[c.Pos()]
+			r.Check(!isBad, rule, con, c.Pos(), true,
+				"the printed name of the type is text: it keys no table that outlives the call",
+				"the printed name of a reflect.Type keys the "+where+": distinct types that print alike (function-local types of one package, packages of one base name) share the entry, so the second type is served the record of the first")
+		}
+	}
+}
+
+// ruleIsKeepsCause (round 11, R15.29): an error struct that carries its cause in a field is
+// classified through that cause (Unwrap, R15.2). An `Is(error) bool` method on such a type
+// that never reads the receiver and names a sentinel of the module answers the same for every
+// instance: a constructor error, a panic and a disposed container wrapped in it all classify
+// as that sentinel and can no longer be told apart. One obligation per cause-carrying type.
+func ruleIsKeepsCause(w *World, r *Report, rule string) {
+	for _, p := range rootPkgs(w) {
+		sc := p.Types.Scope()
+		names := sc.Names()
+		sort.Strings(names)
+		for _, name := range names {
+			tn, ok := sc.Lookup(name).(*types.TypeName)
+			if !ok || tn.IsAlias() {
+				continue
+			}
+			st, ok := tn.Type().Underlying().(*types.Struct)
+			if !ok || !implementsError(tn.Type()) {
+				continue
+			}
+			cause := ""
+			for i := 0; i < st.NumFields(); i++ {
+				if isErrorType(st.Field(i).Type()) {
+					cause = st.Field(i).Name()
+				}
+			}
+			if cause == "" {
+				continue
+			}
+			con := p.Types.Name() + "." + name + "#Is"
+			var is *FuncInfo
+			for _, fi := range w.FuncsOf(p) {
+				if fi.Obj.Name() == "Is" && recvNamed(fi.Obj) != nil && recvNamed(fi.Obj).Obj() == tn && fi.Decl.Body != nil {
+					is = fi
+				}
+			}
+			if is == nil {
+				r.OK(rule, con, tn.Pos(), false, "%s declares no Is method: it classifies through its cause (%s) alone", name, cause)
+				continue
+			}
+			info := is.Pkg.TypesInfo
+			var recv types.Object
+			if is.Decl.Recv != nil && len(is.Decl.Recv.List) == 1 && len(is.Decl.Recv.List[0].Names) == 1 {
+				recv = info.Defs[is.Decl.Recv.List[0].Names[0]]
+			}
+			readsRecv, sentinel := false, ""
+			ast.Inspect(is.Decl.Body, func(x ast.Node) bool {
+				id, ok := x.(*ast.Ident)
+				if !ok {
+					return true
+				}
+				o := info.Uses[id]
+				if o == nil {
+					return true
+				}
+				if recv != nil && o == recv {
+					readsRecv = true
+				}
+				if v, isVar := o.(*types.Var); isVar && v.Pkg() != nil && v.Parent() == v.Pkg().Scope() && isErrorType(v.Type()) && strings.HasPrefix(v.Pkg().Path(), modPath) {
+					sentinel = v.Name()
+				}
+				return true
+			})
+			r.Check(readsRecv || sentinel == "", rule, con, is.Decl.Pos(), false,
+				name+".Is depends on the receiver (or names no sentinel): what it matches is decided by the error at hand",
+				name+".Is never reads its receiver and matches the sentinel "+sentinel+": every "+name+", whatever cause it wraps (a constructor error, a panic, a disposed container), classifies as "+sentinel)
+		}
+	}
+}
+
+// ruleSingletonStoreRecordsAll (round 11, R01.20): eager creation decides "this constructor
+// has already run" by the presence of the descriptor's key in the singleton table (the
+// already-created test of createAllSingletons), so the function that files a singleton must
+// record every output it is handed: no success exit of it is reached without the store. An
+// output that was produced but not recorded (a nil interface among several return values)
+// makes the constructor run again when the sibling descriptor comes up in the creation order,
+// and the second run replaces the instances the first one filed.
+func ruleSingletonStoreRecordsAll(w *World, r *Report, rule string) {
+	ro := resolveRoles(w)
+	con := "setSingleton#records-every-output"
+	fi := ro.setSingleton
+	if fi == nil || ro.singletons == nil || fi.Decl.Body == nil {
+		r.Undecided(rule, con, token.NoPos, "the function that stores into the singleton table was not found")
+		return
+	}
+	r.Analysed(fi)
+	info := fi.Pkg.TypesInfo
+	storesTable := func(g *FuncInfo) bool {
+		if g == nil || g.Decl.Body == nil {
+			return false
+		}
+		st, _, _ := tableOpsIn(g.Pkg.TypesInfo, g.Decl.Body, ro.singletons)
+		return len(st) > 0
+	}
+	fl := w.FlowOf(fi)
+	sol := fl.Solve(Spec{Must: true,
+		Node: func(nd ast.Node, in Facts) (gen, kill []string) {
+			if st, _, _ := tableOpsIn(info, nd, ro.singletons); len(st) > 0 {
+				gen = append(gen, "stored")
+			}
+			for _, c := range callsIn(nd, false) {
+				if cal := callee(info, c); cal != nil && !cal.Exported() && w.Decls[cal] != fi && storesTable(w.Decls[cal]) {
+					gen = append(gen, "stored")
+				}
+			}
+			return
+		}})
+	bad := ""
+	n := 0
+	for _, ex := range fl.Exits() {
+		if ex.Panic {
+			continue
+		}
+		if ex.Ret != nil && len(ex.Ret.Results) > 0 {
+			last := ex.Ret.Results[len(ex.Ret.Results)-1]
+			if isErrorType(info.TypeOf(last)) && !isNilIdent(info, last) {
+				continue // a refused store is reported to the caller
+			}
+			if c, ok := unparen(last).(*ast.CallExpr); ok && len(ex.Ret.Results) == 1 {
+				if cal := callee(info, c); cal != nil && storesTable(w.Decls[cal]) {
+					continue // return p.store(key, instance): delegated
+				}
+			}
+		}
+		n++
+		if !sol.AtExit(ex).Has("stored") && bad == "" {
+			bad = w.Pos(ex.Pos)
+		}
+	}
+	if n == 0 {
+		r.Undecided(rule, con, fi.Decl.Pos(), "%s has no success exit the rule recognises", fi.Name())
+		return
+	}
+	r.Check(bad == "", rule, con, fi.Decl.Pos(), true,
+		"every success exit of "+fi.Name()+" has stored the instance it was handed: presence in the table means \"constructed\"",
+		"the success exit at "+bad+" of "+fi.Name()+" is reached without a store into the singleton table: eager creation takes the missing key for \"not constructed yet\" and runs the constructor again for the sibling descriptor")
+}
